@@ -174,6 +174,48 @@ func init() {
 	// c.converge: wait until every live member's membership layer and routing service list exactly the live members
 	register("c.converge", func(a []string) string {
 		deadline := time.Now().Add(60 * time.Second)
+		stable := 0
+		var agreedAt time.Time
+		tablesSettled := func() bool {
+			live := map[string]bool{}
+			for _, m := range cl.members {
+				if m.alive {
+					live[m.addr] = true
+				}
+			}
+			first := ""
+			for _, m := range cl.members {
+				if !m.alive {
+					continue
+				}
+				iv := m.db.VerifInternals()
+				parts := uint64(optInt(cl.opts, "parts", 7))
+				var sb strings.Builder
+				for p := uint64(0); p < parts; p++ {
+					owners := iv.Primary.PartitionByID(p).Owners()
+					if len(owners) == 0 {
+						return false
+					}
+					for _, o := range owners {
+						if !live[o.String()] {
+							return false
+						}
+					}
+					for _, b := range iv.Backup.PartitionByID(p).Owners() {
+						if !live[b.String()] {
+							return false
+						}
+					}
+					fmt.Fprintf(&sb, "%d:%s;", p, owners[len(owners)-1].String())
+				}
+				if first == "" {
+					first = sb.String()
+				} else if first != sb.String() {
+					return false
+				}
+			}
+			return true
+		}
 		for {
 			want := 0
 			for _, m := range cl.members {
@@ -192,9 +234,24 @@ func init() {
 				}
 			}
 			if ok {
-				// let the event-driven table updates finish
-				time.Sleep(150 * time.Millisecond)
-				return "ok " + strconv.Itoa(want)
+				// ... and every survivor's routing table lists live members only, the same on every survivor (the
+				// event-driven recomputation and its push have been processed), three polls in a row
+				// (a grace period, not a condition: a table that never gets there is what the oracles are for)
+				if agreedAt.IsZero() {
+					agreedAt = time.Now()
+				}
+				if tablesSettled() {
+					stable++
+				} else {
+					stable = 0
+				}
+				if stable >= 3 || time.Since(agreedAt) > 4*time.Second {
+					time.Sleep(150 * time.Millisecond)
+					return "ok " + strconv.Itoa(want)
+				}
+			} else {
+				stable = 0
+				agreedAt = time.Time{}
 			}
 			if time.Now().After(deadline) {
 				return "not-converged"
